@@ -164,8 +164,25 @@ def check_histories():
     return bad
 
 
+ABSORBED = ['def f(*args): pass', 'def f(*args, **kw): pass', 'def f(*rest, k=1): pass', 'def f(*args, k, **kw): pass']
+
+
+def check_absorbed():
+    """bound methods whose implied self is taken by *args: nothing is to be dropped from the description"""
+    bad = []
+    for src in ABSORBED:
+        ns = {}
+        exec(src, ns)
+        K = type('K', (), {'f': ns['f']})
+        bad += compare(fromMethod(K().f), expected(K().f, False), 'bound method %r (self taken by the star parameter)' % src)
+    return bad
+
+
 def replay(spec):
-    bad = check(spec) if spec != 'histories' else check_histories()
+    if spec == 'absorbed':
+        bad = check_absorbed()
+    else:
+        bad = check(spec) if spec != 'histories' else check_histories()
     for sig, what in bad:
         print('violated:', sig, what)
     sys.exit(1 if bad else 0)
@@ -174,11 +191,14 @@ def replay(spec):
 def run(ctx):
     ctx.rule = ('every signature with <=2 positional-only, <=2 positional, <=2 defaulted, optional *args, <=1+1 keyword-only '
                 '(required/defaulted), optional **kw; as plain function and as bound method (self dropped; also self with '
-                'a default); oracle inspect.signature; plus description histories (functions sharing a code object, both imlevels, replaced __defaults__, mutated earlier descriptions); distinct = distinct signature shapes')
+                'a default; self taken by *args); oracle inspect.signature; plus description histories (functions sharing a code object, both imlevels, replaced __defaults__, mutated earlier descriptions); distinct = distinct signature shapes')
     ctx.bounds = 'parameters per kind <= 2'
     ctx.case('histories')
     for sig, what in check_histories():
         ctx.violation(sig, what, "from falsify.C18 import replay\nreplay('histories')\n")
+    ctx.case('absorbed')
+    for sig, what in check_absorbed():
+        ctx.violation(sig, what, "from falsify.C18 import replay\nreplay('absorbed')\n")
     n = 0
     rng = [range(3), range(3), range(3), (False, True), range(2), range(2), (False, True)]
     for spec in itertools.product(*rng):
